@@ -37,10 +37,11 @@ RULE = {
         "BatteryManager, (PV) 1-5 solar inverters with arbitrary negative lower bounds, requests <= 0 inside and beyond the "
         "summed bounds over all or a subset of the inverters, through a real PVManager; every set_power call gets an outcome "
         "from {ok, OperationOutOfRange, ApiClientError, RuntimeError, no reply before the timeout} (one generated vector, and "
-        "all 5^n vectors for small n) and a generated reply latency from {0, 10 ms, 0.5 s, 2 s} (all below the 5 s timeout). Oracle, from the Result and the recorded calls: succeeded+failed+excess == requested; "
+        "all 5^n vectors for small n; otherwise two further requests on the same manager) and a generated reply latency from {0, 10 ms, 0.5 s, 2 s} (all below the 5 s timeout). Oracle, from the Result and the recorded calls: succeeded+failed+excess == requested; "
         "failed_power == sum of set-points of calls that did not return normally; succeeded/failed component sets disjoint and "
         "together the components addressed; Success iff no call failed; (with C01) succeeded_power == sum of set-points of calls "
-        "that returned. Non-trivial = >=2 calls with >=1 failure and >=1 success, or a timeout; distinct by SHA-1 of the "
+        "that returned. Finally two requests over disjoint component sets are put in flight at once on the same manager "
+        "(the distributing actor serialises per component set only) and each result is judged against its own calls. Non-trivial = >=2 calls with >=1 failure and >=1 success, or a timeout; distinct by SHA-1 of the "
         "canonical JSON case."
     )
 }
@@ -50,7 +51,7 @@ ASSUMPTIONS = [
     "API timeout 5 s of virtual time",
 ]
 MIN_LABELS = {"C15": {"pv": 0.3, "battery": 0.3, "mixed_outcomes": 0.2, "timeout": 0.1,
-                      "mixed_outcomes_with_different_latencies": 0.1}}
+                      "mixed_outcomes_with_different_latencies": 0.1, "two_requests_in_flight_on_one_manager": 0.3}}
 
 OUT = fakes.OUTCOMES
 LATENCIES = [0.0, 0.0, 0.0, 0.01, 0.5, 2.0]
@@ -154,7 +155,7 @@ def _run_battery(case: dict[str, Any], v: Verdict, enum_limit: int) -> None:
                     inv_bats[i] = set(bids)
             n_calls = len(inv_bats)
             vecs = _vectors(n_calls, case["outcomes"], enum_limit)
-            if len(vecs) > 1:
+            if n_calls <= enum_limit:
                 v.labels.add("all_vectors_enumerated")
             for vec in vecs:
                 order = sorted(inv_bats)
@@ -180,6 +181,42 @@ def _run_battery(case: dict[str, Any], v: Verdict, enum_limit: int) -> None:
                 _labels(v, outs)
                 if v.violations:
                     return
+            if len(mw.ids) < 2:
+                return
+            # two requests over disjoint battery groups in flight at once on the same manager
+            half = len(mw.ids) // 2
+            parts = [(case["groups"][:half], mw.ids[:half]), (case["groups"][half:], mw.ids[half:])]
+            by_inv = dict(zip(sorted(inv_bats), vecs[0]))
+            mw.api.set_power_calls.clear()
+            mw.api.set_power_outcomes.clear()
+            mw.api.outcome_fn = lambda cid, p, idx, m=by_inv: m[cid]
+            await mw.feed()
+            await world.settle()
+            reqs = []
+            for sub_groups, sub_ids in parts:
+                bats = frozenset(b for bids, _ in sub_ids for b in bids)
+                reqs.append((bats, batsys.request_power(sub_groups, case["req"], nudge=True),
+                             {i for _, iids in sub_ids for i in iids}))
+            await asyncio.gather(*[
+                mw.manager.distribute_power(Request(Power.from_watts(pwr), bats, True)) for bats, pwr, _ in reqs])
+            v.labels.add("two_requests_in_flight_on_one_manager")
+            got: dict[frozenset[int], Any] = {}
+            for _ in range(2):
+                res = await asyncio.wait_for(mw.results_rx.receive(), timeout=30.0)
+                got[frozenset(res.request.component_ids)] = res
+            pairs = list(zip(mw.api.set_power_calls, mw.api.set_power_outcomes))
+            for bats, pwr, invs in reqs:
+                res = got.get(bats)
+                if res is None:
+                    v.fail(f"no result for the concurrent battery request over {sorted(bats)}")
+                    return
+                mine = [(c, o) for c, o in pairs if c[0] in invs]
+                addressed = set()
+                for (cid, _), _o in mine:
+                    addressed |= inv_bats[cid]
+                _check_result(v, res, pwr, [c for c, _ in mine], [o for _, o in mine], addressed, lambda c: inv_bats[c],
+                              f"battery request {pwr} over {sorted(bats)} (concurrent with another request on the same "
+                              f"manager) outcomes { {c: by_inv[c] for c in sorted(invs)} }")
 
     world.run(scenario)
 
@@ -245,7 +282,7 @@ def _run_pv(case: dict[str, Any], v: Verdict, enum_limit: int) -> None:
         async with _PVWorld(bounds) as pw:
             ids = {pw.ids[i] for i in chosen}
             vecs = _vectors(len(ids), case["outcomes"], enum_limit)
-            if len(vecs) > 1:
+            if len(ids) <= enum_limit:
                 v.labels.add("all_vectors_enumerated")
             for vec in vecs:
                 by_inv = dict(zip(sorted(ids), vec))
@@ -274,6 +311,46 @@ def _run_pv(case: dict[str, Any], v: Verdict, enum_limit: int) -> None:
                 _labels(v, outs)
                 if v.violations:
                     return
+            if len(ids) < 2:
+                return
+            # two requests over disjoint inverter sets in flight at once on the same manager (the distributing
+            # actor serialises per component set only): each result must account for its own request
+            order = sorted(ids)
+            set_a, set_b = set(order[: len(order) // 2]), set(order[len(order) // 2:])
+            bound_of = dict(zip(pw.ids, bounds))
+            p_a = -(sum(bound_of[c] for c in set_a) * frac + 0.25)
+            p_b = -(sum(bound_of[c] for c in set_b) * 0.5 + 1.0)
+            by_inv = dict(zip(order, vecs[0]))
+            pw.api.set_power_calls.clear()
+            pw.api.set_power_outcomes.clear()
+            pw.api.outcome_fn = lambda cid, p, idx, m=by_inv: m[cid]
+            lat = case.get("latency", [0])
+            lat_by_inv = {cid: LATENCIES[lat[k % len(lat)]] for k, cid in enumerate(order)}
+            pw.api.latency_fn = lambda cid, p, idx, m=lat_by_inv: m[cid]
+            await asyncio.gather(pw.manager.distribute_power(Request(Power.from_watts(p_a), frozenset(set_a), True)),
+                                 pw.manager.distribute_power(Request(Power.from_watts(p_b), frozenset(set_b), True)))
+            await world.settle()
+            v.labels.add("two_requests_in_flight_on_one_manager")
+            if any(lat_by_inv[c] > 0 for c in set_a) and any(lat_by_inv[c] > 0 for c in set_b):
+                v.labels.add("two_requests_overlapping_in_time")
+            got: dict[frozenset[int], Any] = {}
+            for _ in range(2):
+                try:
+                    res = await asyncio.wait_for(pw.results_rx.receive(), timeout=4.0)
+                except asyncio.TimeoutError:
+                    v.fail(f"two concurrent PV requests over {sorted(set_a)} / {sorted(set_b)} produced {len(got)} result(s)")
+                    return
+                got[frozenset(res.request.component_ids)] = res
+            pairs = list(zip(pw.api.set_power_calls, pw.api.set_power_outcomes))
+            for subset, pwr in ((set_a, p_a), (set_b, p_b)):
+                res = got.get(frozenset(subset))
+                if res is None:
+                    v.fail(f"no result for the concurrent PV request over {sorted(subset)}")
+                    return
+                mine = [(c, o) for c, o in pairs if c[0] in subset]
+                _check_result(v, res, pwr, [c for c, _ in mine], [o for _, o in mine], {c[0] for c, _ in mine}, lambda c: {c},
+                              f"PV request {pwr} over {sorted(subset)} (concurrent with another request on the same manager) "
+                              f"outcomes { {c: by_inv[c] for c in sorted(subset)} }")
 
     world.run(scenario)
 
